@@ -1,0 +1,1 @@
+//! Facade for `query_pool.rs` and `query_pool/peers/*`.
